@@ -140,7 +140,7 @@ impl Compiler {
             self.next_call_site_slot = nested_compiler.next_call_site_slot;
         }
 
-        let const_idx = self.current.add_constant_function(compiled_func);
+        let const_idx = self.add_function_constant(compiled_func, !nested_upvalues.is_empty(), span)?;
 
         if nested_upvalues.is_empty() {
             self.emit_b(OpCode::LoadK, dest, const_idx as i16, span);
